@@ -178,7 +178,7 @@ def run_job(job):
         ev = [{k: v for k, v in e.items() if k not in ('seq', 'th', 'names')} for e in res.trace]
         rec = {'id': item['id'], 'p': header(sc), 'ev': ev, 'sc': sc, 'seed': seed, 'status': res.status,
                'strategy': item.get('strategy', 'random')}
-        if res.status != 'ok' or res.exc is not None:
+        if res.status != 'ok' or res.exc is not None or res.thread_errors:
             rec.update(detail=res.detail, waitmap=res.waitmap, exc=repr(res.exc) if res.exc is not None else None,
                        leftover=res.leftover, thread_errors=res.thread_errors)
             hangs.append(rec)
